@@ -125,6 +125,24 @@ def s30(rng):
     return lt, cfg, h, True
 
 
+@scen("re-draws: a_ani GAUSSIAN_SCALED near the grid edge")
+def s31(rng):
+    # every re-draw of a truncated population comes from the SAME declared population (mean a, spread sigma*a)
+    lt = rng.choice(["IFUKinCov", "DdtGaussKin"])
+    cfg, h = base_cfg(rng, lt)
+    gom = rng.random() < 0.4
+    cfg.update(anisotropy_model="GOM" if gom else "OM", anisotropy_sampling=True, anisotropy_distribution="GAUSSIAN_SCALED",
+               num_distribution_draws=rng.choice([8, 12]))
+    names, axes = ["a_ani"], [np.linspace(0.5, 5.0, 6)]
+    h["kwargs_kin"].update(a_ani=rng.choice([0.6, 0.7, 4.5]), a_ani_sigma=rng.choice([0.5, 0.3]))
+    if gom:
+        names.append("beta_inf")
+        axes.append(np.linspace(0.0, 1.0, 4))
+        h["kwargs_kin"].update(beta_inf=rng.choice([0.9, 0.1]), beta_inf_sigma=0.3)
+    cfg["_grid"] = (names, axes)
+    return lt, cfg, h, True
+
+
 @scen("a_ani/sampling off")
 def s7(rng):
     cfg, h = base_cfg(rng, "DdtGaussian")
